@@ -69,9 +69,19 @@ def check_schema(sim, proc, snap, prop, when):
       when, sorted(eng_user), sorted(b)), prop)
 
 
+def _canon_action(a):
+  # The order of the column list inside an AddTable action carries no meaning (column order is the
+  # parentPos metadata). It follows the insertion order of the engine's internal schema dict, which
+  # a rolled-back RemoveColumn changes (the column is re-added at the end): not a trace in the
+  # sense of the property (tables, metadata and schema content are as before).
+  if a and a[0] == "AddTable" and isinstance(a[2], list):
+    return [a[0], a[1], sorted(a[2], key=lambda c: str(c.get("id")) if isinstance(c, dict) else "")]
+  return a
+
+
 def reply_key(value):
   stored, undo, direct, calc, ret = split_reply(value)
-  return eq.norm([stored, undo, direct, ret])
+  return eq.norm([[_canon_action(a) for a in stored], [_canon_action(a) for a in undo], direct, ret])
 
 
 # -- invalid actions (natural failures, F5) ---------------------------------------------------------
